@@ -520,10 +520,13 @@ class MemOrchestrator(BaseOrchestrator):
     ) -> list["InvocationId"]:
         if not invocation_ids or status_filter is None:
             return []
+        # ids the orchestrator does not know (e.g. auto-purged) match no status, as in the
+        # SQLite implementation, instead of raising KeyError
         return [
             inv_id
             for inv_id in invocation_ids
-            if self.get_invocation_status(inv_id) in status_filter
+            if (record := self.invocation_status_record.get(inv_id)) is not None
+            and record.status in status_filter
         ]
 
     def register_runner_heartbeats(
